@@ -80,6 +80,8 @@ def run (c obs : String) : String × String × Bool :=
         else if (same.splitOn ",").getD 0 "" != "1" then "compiling the same invocation twice gave different task graphs"
         else if (same.splitOn ",").getD 1 "" == "0" then "a worker compiling the transported invocation gets a different task graph"
         else if (same.splitOn ",").getD 1 "" == "err" then "the invocation does not survive transport"
+        else if (same.splitOn ",").getD 1 "" == "envwritable" then
+          "the compile environment a worker receives is writable: the worker records its own view of the cache files and may compile another graph than the driver"
         else if obsDump != model then "task graph differs from the documented compilation (names, shard/partition counts, combiner keys or wiring)"
         else "ok"
       (model, oracle, oracle == "ok")
